@@ -53,6 +53,27 @@ def sh(cmd, cwd=None, timeout=3600, input=None):
     return p.returncode, p.stdout
 
 
+def fresh_interpreters(codes, env=None, timeout=60, workers=8):
+    """Run each Python source text in `codes` as the whole program of a NEW interpreter importing /repo's working tree
+    (module-level lazy imports, memo tables, warn-once sets and other process-wide state start empty), several at a time.
+    Returns, per code, (returncode, stdout, stderr-tail); a child that times out gives (None, '', 'timeout')."""
+    from concurrent.futures import ThreadPoolExecutor
+    e = dict(os.environ)
+    e["PYTHONPATH"] = os.path.join(REPO, "src")
+    e.setdefault("TZ", "UTC")
+    e["PYTHONDONTWRITEBYTECODE"] = "1"
+    e.update(env or {})
+    def one(code):
+        try:
+            p = subprocess.run([sys.executable, "-c", code], stdout=subprocess.PIPE, stderr=subprocess.PIPE, text=True,
+                               timeout=timeout, env=e, cwd="/")
+            return p.returncode, p.stdout, p.stderr[-400:]
+        except subprocess.TimeoutExpired:
+            return None, "", "timeout"
+    with ThreadPoolExecutor(max_workers=workers) as ex:
+        return list(ex.map(one, codes))
+
+
 class LeanState:
     def __init__(self):
         self.gen_report = {}
